@@ -28,6 +28,9 @@ def dense_permute(v, sites, perm):
     return np.transpose(v * sign, inv)
 
 
+MAX_DIM = 1100
+
+
 def run(rec):
     warnings.simplefilter('ignore')
     from tenpy.networks.mps import MPS
@@ -41,10 +44,12 @@ def run(rec):
                 'enlarge_chi, compress (error <= reported), spatial_inversion (reversal; twice = identity); infinite MPS in forms A/B/C: '
                 'enlarge_mps_unit_cell, roll_mps_unit_cell, spatial_inversion leave observables unchanged up to relabelling; '
                 'non-trivial = max chi >= 2')
-    rec.bounds = {'L': Ls, 'reps': reps}
+    rec.bounds = {'L': Ls, 'reps': reps, 'max_hilbert_dimension': MAX_DIM}
     tol = 1e-8
     for fname, fam in mpsgen.site_families():
         for L in Ls:
+            if int(np.prod([x.dim for x in mpsgen.make_sites(fam, L)])) > MAX_DIM:
+                continue      # dense operator oracle: Hilbert space dimension bounded (stated in the evidence)
             for rep in range(reps):
                 inp = {'sites': fname, 'L': L, 'rep': rep, 'seed': rec.seed}
                 rec.begin(f'C09 {fname} L={L} rep={rep}')
